@@ -12,7 +12,7 @@
    in order, one posting per line of r (inst_post: the line's account and kind, the multiplied
    or fixed amount, flagged generated).  cp = the pool's display precision; ord = the
    unspecified hash-table insertion order of balances. *)
-From LedgerV Require Import Base.Prelude Base.Round Gen.AutoXactRoot Model.Amount Model.Xact Model.AutoXact
+From LedgerV Require Import Base.Prelude Base.Round Gen.AutoXactRoot Gen.PostPred Model.Amount Model.Xact Model.AutoXact
   Proofs.AmountProofs Proofs.XactProofs Proofs.AutoXactProofs.
 From Coq Require Import Qabs.
 Local Open Scope Q_scope.
@@ -378,3 +378,91 @@ Theorem rule_header_words_end_at_blanks_and_tabs :
   src_query_blanks_skipped = [9; 10; 13; 32]%Z /\ src_query_word_ends = [9; 10; 13; 32]%Z.
 Proof. repeat split; reflexivity. Qed.
 Print Assumptions rule_header_words_end_at_blanks_and_tabs.
+
+(* ---- constants, == and ?: in a rule's predicate; the quick matcher case by case.
+   post_pred (xact.cc) handles VALUE, account =~ mask, ==, !, &, |, ?: and throws on everything else;
+   extend_xact then evaluates the full predicate.  Which cases the source has, and that each body is the
+   transcribed one, is read from the source on every run (harness/translators/c16_post_pred.py ->
+   Gen/PostPred.v); quick_eval takes a case only when it is there in that form. *)
+Theorem quick_matcher_cases_as_transcribed :
+  (forall o, src_post_pred o = PpAsTranscribed) /\ src_post_pred_no_other_case = true /\ src_post_pred_frame = true.
+Proof. exact post_pred_cases_transcribed. Qed.
+Print Assumptions quick_matcher_cases_as_transcribed.
+
+(* on every predicate built from account matches and true/false by ! & | == ?: the quick matcher answers
+   (REQUIRES the seven cases above), with the value of the full predicate for every payee and amount *)
+Theorem quick_match_answers_account_only : forall payee p e,
+  acct_only e = true -> exists b, quick_eval p e = Some b /\ pred_eval payee p e = Ok b.
+Proof. exact acct_only_full_value. Qed.
+Print Assumptions quick_match_answers_account_only.
+
+(* so such a rule fires on a posting or not by the account name alone *)
+Theorem account_only_rule_decided_by_account : forall r payee payee' x y,
+  acct_only (r_pred r) = true -> p_acct (x_post x) = p_acct (x_post y) ->
+  matchesb r payee x = matchesb r payee' y.
+Proof. exact acct_only_same_account. Qed.
+Print Assumptions account_only_rule_decided_by_account.
+
+Theorem quick_match_declines_payee_and_amount : forall p e,
+  match e with PPayee _ | PAmtLt _ | PAmtGt _ => quick_eval p e = None | _ => True end.
+Proof. exact quick_eval_declines_atoms. Qed.
+Print Assumptions quick_match_declines_payee_and_amount.
+
+(* `= expr true` fires on every posting that no rule made, `= expr false` on none *)
+Theorem constant_rule_candidates : forall r payee b ps,
+  r_pred r = PConst b -> candidates r payee ps = if b then filter not_generated ps else [].
+Proof. exact candidates_const. Qed.
+Print Assumptions constant_rule_candidates.
+
+(* p == q holds exactly when both hold or neither does (both sides are evaluated, an error on the left
+   is the result); c ? p : q is p where c holds and q elsewhere, the other branch is not evaluated *)
+Theorem equality_predicate : forall payee p q r a b,
+  pred_eval payee p q = Ok a -> pred_eval payee p r = Ok b ->
+  pred_eval payee p (PEq q r) = Ok (Bool.eqb a b) /\
+  pred_eval payee p (PEq q r) = pred_eval payee p (POr (PAnd q r) (PAnd (PNot q) (PNot r))).
+Proof. intros payee p q r a b Hq Hr. split; [exact (pred_eval_eq _ _ _ _ _ _ Hq Hr) | exact (pred_eval_eq_as_connectives _ _ _ _ _ _ Hq Hr)]. Qed.
+Print Assumptions equality_predicate.
+
+Theorem equality_predicate_error : forall payee p q r e,
+  pred_eval payee p q = Err e -> pred_eval payee p (PEq q r) = Err e.
+Proof. exact pred_eval_eq_error_left. Qed.
+Print Assumptions equality_predicate_error.
+
+Theorem conditional_predicate : forall payee p c q r b,
+  pred_eval payee p c = Ok b -> pred_eval payee p (PQuery c q r) = pred_eval payee p (if b then q else r).
+Proof. exact pred_eval_query. Qed.
+Print Assumptions conditional_predicate.
+
+Theorem conditional_rule_matches : forall r payee x c q s b,
+  r_pred r = PQuery c q s -> pred_eval payee (x_post x) c = Ok b ->
+  matchesb r payee x = matchesb (mkRule (if b then q else s) (r_lines r)) payee x.
+Proof. exact matchesb_query. Qed.
+Print Assumptions conditional_rule_matches.
+
+Theorem equality_rule_matches : forall r payee x q s a b,
+  r_pred r = PEq q s -> pred_eval payee (x_post x) q = Ok a -> pred_eval payee (x_post x) s = Ok b ->
+  matchesb r payee x = Bool.eqb a b.
+Proof. exact matchesb_eq. Qed.
+Print Assumptions equality_rule_matches.
+
+(* non-vacuity: `= expr account =~ /Foo/ == (account =~ /Exp/)` with (B) 1 before `Exp:Food $10.00 / Cash $-10.00`
+   fires on BOTH postings (both match, neither matches); `account =~ /Foo/ ? false : true` on Cash only;
+   the same through the full predicate (a payee atom makes the quick matcher decline) *)
+Example equality_and_conditional_example :
+  let usd := Some [36%Z] in
+  let food := [69; 120; 112; 58; 70; 111; 111; 100]%Z in
+  let cash := [67; 97; 115; 104]%Z in
+  let ln := [mkLine [66%Z] PVirtual (Some (mkAmt 1 0%Z false None)) SUncleared] in
+  let t := mkTxn [120; 49]%Z SUncleared
+                 [mkPost food PReal (Some (mkAmt 10 2%Z false usd)) None None false false false;
+                  mkPost cash PReal (Some (mkAmt (-10) 2%Z false usd)) None None false false false] in
+  let gen (q : Q) := mkX (mkPost [66%Z] PVirtual (Some (mkAmt q 2%Z false usd)) None None false true false) SUncleared in
+  let foo := PAcct [70; 111; 111]%Z in let ex := PAcct [69; 120; 112]%Z in
+  process false [] [] [] [DRule (mkRule (PEq foo ex) ln); DTxn t] =
+    [Ok (XAccepted (lift SUncleared (t_posts t) ++ [gen 10; gen (-10)]))] /\
+  process false [] [] [] [DRule (mkRule (PQuery foo (PConst false) (PConst true)) ln); DTxn t] =
+    [Ok (XAccepted (lift SUncleared (t_posts t) ++ [gen (-10)]))] /\
+  process false [] [] [] [DRule (mkRule (PAnd (PPayee [120%Z]) (PQuery foo (PConst false) (PConst true))) ln); DTxn t] =
+    [Ok (XAccepted (lift SUncleared (t_posts t) ++ [gen (-10)]))] /\
+  acct_only (PEq foo ex) = true /\ acct_only (PAnd (PPayee [120%Z]) foo) = false.
+Proof. cbv zeta. repeat split; vm_compute; reflexivity. Qed.
